@@ -921,6 +921,12 @@ func (runInfo *runInfoStruct) invokeChanExpr(expr *ast.ChanExpr) {
 	if rhs.Kind() == reflect.Chan {
 		// rhs is channel
 		// receive from rhs channel
+		if rhs.Type().ChanDir() == reflect.SendDir {
+			// reflect would panic
+			runInfo.err = newStringError(expr, "receive from send-only channel")
+			runInfo.rv = nilValue
+			return
+		}
 		if runInfo.interrupted() {
 			// cancelled before the operation starts: never a matter of which case Select picks
 			runInfo.err = ErrInterrupt
